@@ -8,11 +8,11 @@ cp -r /repo/target "$W/target"
 cd "$W"
 res() { echo "$1=$2"; }
 cp "$SRC/demo.rs" tests/demo.rs
-if cargo test --offline --test demo >"$W/demo_pristine.log" 2>&1; then res demo_pristine pass; else res demo_pristine FAIL; tail -5 "$W/demo_pristine.log"; fi
+if cargo test --offline ${SEED_FEATURES:+--features $SEED_FEATURES} --test demo >"$W/demo_pristine.log" 2>&1; then res demo_pristine pass; else res demo_pristine FAIL; tail -5 "$W/demo_pristine.log"; fi
 if git apply --check "$SRC/patch.diff" 2>/dev/null; then git apply "$SRC/patch.diff"; res apply ok; else res apply FAIL; fi
 if cargo build --offline >"$W/build.log" 2>&1; then res build ok; else res build FAIL; tail -5 "$W/build.log"; fi
 if cargo test --offline --lib --test metrohast_2d_gaussian_test --test metrohast_poisson_test >"$W/suite.log" 2>&1; then res suite pass; else res suite FAIL; fi
 grep -E "^test result" "$W/suite.log" | tr '\n' ' '; echo
-if cargo test --offline --test demo >"$W/demo_changed.log" 2>&1; then res demo_changed PASS-unexpected; else res demo_changed fail; fi
+if cargo test --offline ${SEED_FEATURES:+--features $SEED_FEATURES} --test demo >"$W/demo_changed.log" 2>&1; then res demo_changed PASS-unexpected; else res demo_changed fail; fi
 cd /
 git -C /repo worktree remove --force "$W"
